@@ -1,5 +1,13 @@
 (** * C08 - property theorems (full statements; proofs in coq/Proofs/C08_*.v).
-    Statements are those of the proved lemmas, restated verbatim. *)
+    Statements are those of the proved lemmas, restated verbatim.
+
+    The theorems about [dr_numerical] / [dr] / [dr_idx] are about the code as it is in /repo now: hypothesis
+    [current_code o] = "the version flags of [o] are the ones recorded in the model file" (both repairs present:
+    59fd5d3 restore from a saved copy, 41b038a K = 2 Jacobian from the K = 1 routine).  There is no hypothesis on
+    the group operations any more.  The refutations of the old behaviour ([restore_inexact_refuted] in
+    Proofs/C08_DiffLayout.v, [k2_jac_accuracy_refuted] / [k2_jac_step_bound] in Proofs/C08_FwdDiff.v) and the
+    statements over the parametrised model (hypothesis [restore_ok]) remain there as lemmas; they are history,
+    not properties of the current code. *)
 From Coq Require Import List Arith Bool ZArith Reals.
 From Coquelicot Require Import Coquelicot.
 From SV Require Import Model.C08_DiffLayout Proofs.C08_DiffLayout Proofs.C08_FwdDiff Proofs.C08_Link.
@@ -7,7 +15,7 @@ Import ListNotations.
 
 Theorem C08_jac_layout :
   forall (Sc X Y JT HT : Type) (o : Ops Sc X Y) (f : list X -> Y) (x : list X),
-       restore_ok o ->
+       current_code o ->
        let out := dr_numerical JT HT o 1 f x in
        o_val out = f x /\
        o_args out = x /\
@@ -22,12 +30,12 @@ Theorem C08_jac_layout :
            (c < sum_dof o x)%nat ->
            exists i j : nat,
              (i < length x)%nat /\ (j < dofX o (getx o i x))%nat /\ c = (offset o x i + j)%nat)).
-Proof. exact k1_characterisation. Qed.
+Proof. exact k1_characterisation_current. Qed.
 Print Assumptions C08_jac_layout.
 
 Theorem C08_hess_cells :
   forall (Sc X Y JT HT : Type) (o : Ops Sc X Y) (f : list X -> Y) (x : list X),
-       restore_ok o ->
+       current_code o ->
        let out := dr_numerical JT HT o 2 f x in
        let nx := sum_dof o x in
        let ny := dofY o (f x) in
@@ -42,7 +50,7 @@ Theorem C08_hess_cells :
           (forall i j : nat,
            (i < length x)%nat ->
            (j < dofX o (getx o i x))%nat ->
-           getJ J (offset o x i + j) = Some (quot1 o (if fix_k2jac o then eps o else sqrteps o) f x i j)) /\
+           getJ J (offset o x i + j) = Some (quot1 o (eps o) f x i j)) /\
           (forall i0 k0 i1 k1 j : nat,
            (i0 < length x)%nat ->
            (i1 < length x)%nat ->
@@ -51,7 +59,7 @@ Theorem C08_hess_cells :
            (j < ny)%nat ->
            getH H (offset o x i0 + k0) (j * nx + offset o x i1 + k1) =
            Some (nth j (quot2 o f x i0 k0 i1 k1) (szero o)))).
-Proof. exact k2_characterisation. Qed.
+Proof. exact k2_characterisation_current. Qed.
 Print Assumptions C08_hess_cells.
 
 Theorem C08_hess_layout :
@@ -94,7 +102,7 @@ Theorem C08_jac_columns :
   forall (Sc X Y JT HT : Type) (o : Ops Sc X Y) (K : nat) (c : Callable X Y JT HT) 
          (x : list X) (idx : list nat),
        K = 1%nat \/ K = 2%nat ->
-       restore_ok o ->
+       current_code o ->
        NoDup idx ->
        List.Forall (fun i : nat => (i < length x)%nat) idx ->
        let xred := map (fun i : nat => getx o i x) idx in
@@ -113,12 +121,12 @@ Theorem C08_jac_columns :
           (j < dofX o (getx o (nth k idx 0) x))%nat ->
           getJ Jsub (offset o xred k + j) = getJ Jfull (offset o x (nth k idx 0%nat) + j) /\
           getJ Jsub (offset o xred k + j) <> None).
-Proof. exact jac_columns. Qed.
+Proof. exact jac_columns_current. Qed.
 Print Assumptions C08_jac_columns.
 
 Theorem C08_hess_subset :
   forall (Sc X Y JT HT : Type) (o : Ops Sc X Y) (c : Callable X Y JT HT) (x : list X) (idx : list nat),
-       restore_ok o ->
+       current_code o ->
        NoDup idx ->
        List.Forall (fun i : nat => (i < length x)%nat) idx ->
        let xred := map (fun i : nat => getx o i x) idx in
@@ -138,26 +146,20 @@ Theorem C08_hess_subset :
           getH Hfull (offset o x (nth k0 idx 0%nat) + c0)
             (j * sum_dof o x + offset o x (nth k1 idx 0%nat) + c1) /\
           getH Hsub (offset o xred k0 + c0) (j * sum_dof o xred + offset o xred k1 + c1) <> None).
-Proof. exact hess_subset. Qed.
+Proof. exact hess_subset_current. Qed.
 Print Assumptions C08_hess_subset.
 
 Theorem C08_restore_exact :
   forall (Sc X Y JT HT : Type) (o : Ops Sc X Y) (K : nat) (c : Callable X Y JT HT) 
          (x : list X) (idx : list nat) (consts : list bool),
        K = 1%nat \/ K = 2%nat ->
-       restore_ok o ->
+       current_code o ->
        length consts = length x ->
        (forall out : Out Sc X Y JT HT,
         dr o K Numerical c x = Some out -> o_args out = x /\ caller_view consts x (o_args out) = x) /\
        (forall out : Out Sc X Y JT HT, dr_idx o K Numerical c x idx = Some out -> o_args out = x).
-Proof. exact restore_exact. Qed.
+Proof. exact restore_exact_current. Qed.
 Print Assumptions C08_restore_exact.
-
-Theorem C08_restore_inexact_refuted :
-  exists (o : Ops Z Z (list Z)) (f : list Z -> list Z) (x : list Z),
-         fix_restore o = false /\ o_args (dr_numerical unit unit o 1 f x) <> x.
-Proof. exact restore_inexact_refuted. Qed.
-Print Assumptions C08_restore_inexact_refuted.
 
 Theorem C08_analytic_passthrough :
   forall (Sc X Y JT HT : Type) (o : Ops Sc X Y) (c : Callable X Y JT HT) (x : list X)
@@ -241,26 +243,47 @@ Theorem C08_fwd_diff_code_step :
 Proof. exact fwd_diff_code_step. Qed.
 Print Assumptions C08_fwd_diff_code_step.
 
-Theorem C08_k2_jac_step_bound :
+Theorem C08_k2_jac_is_k1_jac :
+  forall (Sc X Y JT HT : Type) (o : Ops Sc X Y) (f : list X -> Y) (x : list X),
+       current_code o ->
+       exists J1 J2 : JGrid Sc,
+         o_J (dr_numerical JT HT o 1 f x) = Some (JNum JT J1) /\
+         o_J (dr_numerical JT HT o 2 f x) = Some (JNum JT J2) /\
+         length J1 = length J2 /\
+         (forall c : nat, (c < sum_dof o x)%nat -> getJ J1 c = getJ J2 c /\ getJ J2 c <> None).
+Proof. exact k2_jac_is_k1_jac. Qed.
+Print Assumptions C08_k2_jac_is_k1_jac.
+
+Theorem C08_k2_jac_entry_error :
+  forall (X Y : Type) (o : Ops R X Y),
+       sdiv o = Rdiv ->
+       szero o = 0 ->
+       forall (JT HT : Type) (f : list X -> Y) (x : list X) (i j r : nat) (M2 : R),
+       current_code o ->
+       (i < length x)%nat ->
+       (j < dofX o (getx o i x))%nat ->
+       let h := step o (eps o) (getx o i x) j in
+       let phi := fun t : R => nth r (rminus o (f (pert o x i j t)) (f x)) 0 in
+       0 < h ->
+       phi 0 = 0 ->
+       (r < length (rminus o (f (pert o x i j h)) (f x)))%nat ->
+       (forall t : R, 0 <= t <= 0 + h -> forall k : nat, (k <= 2)%nat -> ex_derive_n phi k t) ->
+       (forall t : R, 0 <= t <= 0 + h -> Rabs (Derive_n phi 2 t) <= M2) ->
+       exists (J : JGrid R) (col : list R),
+         o_J (dr_numerical JT HT o 2 f x) = Some (JNum JT J) /\
+         getJ J (offset o x i + j) = Some col /\ Rabs (nth r col 0 - Derive phi 0) <= h * M2 / 2.
+Proof. exact k2_jac_entry_error. Qed.
+Print Assumptions C08_k2_jac_entry_error.
+
+Theorem C08_k2_jac_accuracy :
   forall (f : R -> R) (x M2 : R),
-       let h := code_step eps2 x in
+       let h := code_step eps1 x in
+       x = 0 \/ 1 / 10 <= Rabs x <= 10 ->
        (forall t : R, x <= t <= x + h -> forall k : nat, (k <= 2)%nat -> ex_derive_n f k t) ->
        (forall t : R, x <= t <= x + h -> Rabs (Derive_n f 2 t) <= M2) ->
-       Rabs ((f (x + h) - f x) / h - Derive f x) <= code_step eps2 x * M2 / 2.
-Proof. exact k2_jac_step_bound. Qed.
-Print Assumptions C08_k2_jac_step_bound.
-
-Theorem C08_k2_jac_accuracy_refuted :
-  exists (f : R -> R) (x : R),
-         1 / 10 <= Rabs x <= 10 /\
-         (forall (t : R_AbsRing) (k : nat), (k <= 2)%nat -> ex_derive_n f k t) /\
-         (forall t : R, Rabs (Derive_n f 2 t) <= 1) /\
-         Rabs (f x) <= 1 /\
-         Rabs (Derive f x) <= 1 /\
-         (let h := code_step eps2 x in
-          Rabs ((f (x + h) - f x) / h - Derive f x) > 1 / 10000 * Rmax 1 (Rabs (Derive f x))).
-Proof. exact k2_jac_accuracy_refuted. Qed.
-Print Assumptions C08_k2_jac_accuracy_refuted.
+       M2 <= 100 -> Rabs ((f (x + h) - f x) / h - Derive f x) <= 1 / 10000 * Rmax 1 (Rabs (Derive f x)).
+Proof. exact k2_jac_accuracy_current. Qed.
+Print Assumptions C08_k2_jac_accuracy.
 
 Theorem C08_second_diff_bound :
   forall (P Pb Pba Pbaa Pbab : R -> R -> R) (h0 h1 M21 M12 eN N : R),
